@@ -437,6 +437,10 @@ class Histories(History):
                 return
             om = np.asarray(pr.omega[types[i], types[j]], dtype=float)
             wo = ref['Omega'][:, i, j]
+            # the mirrored element is part of the matrix the solver multiplies with: it must hold the same function
+            if not np.array_equal(om, np.asarray(pr.omega[types[j], types[i]], dtype=float)):
+                out.fail(sig + 'wiring/omega', 'pair (%s,%s): PRISM.omega is not symmetric in the two type labels' % (types[i], types[j]))
+                return
             if om.shape != wo.shape or np.any(np.abs(om - wo) > ref['Omega_tol'][:, i, j] + 1e-12 * np.abs(wo) + 1e-300):
                 out.fail(sig + 'wiring/omega', 'pair (%s,%s): PRISM.omega differs from rho_site x omega_ref of the model' % (types[i], types[j]))
                 return
